@@ -120,3 +120,18 @@ package quicswarm
 //@   trusted
 //@   pure
 //@   ensures true
+
+// Close closes both hubs before (and whatever) the listener, the inner swarm and the transport do
+//@ func (*Swarm).Close
+//@   noframe
+//@   requires s != nil && inv(s.tells) && inv(s.asks)
+//@   ensures [hubsclosed] closed(old(s.tells.closed)) && closed(old(s.asks.closed))
+//@   fnspec cf:
+//@     ensures inv(s.tells) && inv(s.asks)
+//@     preserves s.tells.closed, s.asks.closed
+//@   fnspec fn:
+//@     preserves s.tells.closed, s.asks.closed, closed(s.tells.closed), closed(s.asks.closed)
+//@   loop 0:
+//@     invariant 0 <= _i && _i <= 3
+//@     invariant s.tells.closed == old(s.tells.closed) && s.asks.closed == old(s.asks.closed)
+//@     invariant closed(old(s.tells.closed)) && closed(old(s.asks.closed))
